@@ -177,8 +177,15 @@ func (r *remoteReplicator) IsReady() bool {
 		r.state.Store(&state{state: models.ReplicatorFailureState, errMsg: "get ack index failure, root cause: " + err.Error()})
 		return false
 	}
-	localReplicaIdx := r.ReplicaIndex() // current need replica index from current node
 	nextReplicaIdx := remoteLastReplicaAckIdx + 1
+	if remoteLastReplicaAckIdx >= r.AppendIndex() {
+		// follower holds the messages which current node doesn't have(current node lost its wal tail, but the
+		// consumer group maybe kept newer index), must check it before comparing replica index,
+		// never append at an index the follower already holds.
+		r.ResetAppendIndex(nextReplicaIdx)
+		r.statistics.ResetAppendIdx.Incr()
+	}
+	localReplicaIdx := r.ReplicaIndex() // current need replica index from current node
 	if nextReplicaIdx == localReplicaIdx {
 		// replica index == remote replica append index, can do replicator
 		r.state.Store(&state{state: models.ReplicatorReadyState})
